@@ -28,6 +28,7 @@ import (
 	"github.com/internetarchive/Zeno/internal/pkg/source/hq"
 	"github.com/internetarchive/Zeno/internal/pkg/stats"
 	"github.com/internetarchive/Zeno/internal/pkg/utils"
+	"github.com/internetarchive/Zeno/internal/pkg/verifhook"
 	"github.com/internetarchive/Zeno/pkg/models"
 )
 
@@ -106,6 +107,9 @@ func (p *preprocessor) worker(workerID string) {
 	stats.PreprocessorRoutinesIncr()
 	defer stats.PreprocessorRoutinesDecr()
 
+	verifhook.At("pre.start", workerID)
+	defer verifhook.At("pre.exit", workerID)
+
 	for {
 		select {
 		case <-p.ctx.Done():
@@ -113,10 +117,13 @@ func (p *preprocessor) worker(workerID string) {
 			return
 		case <-controlChans.PauseCh:
 			logger.Debug("received pause event")
+			verifhook.At("pre.paused", workerID)
 			controlChans.ResumeCh <- struct{}{}
+			verifhook.At("pre.woken", workerID)
 			logger.Debug("received resume event")
 		case seed, ok := <-p.inputCh:
 			if ok {
+				verifhook.At("pre.take", seed, workerID)
 				logger.Debug("received seed", "seed", seed.GetShortID())
 
 				if err := seed.CheckConsistency(); err != nil {
@@ -128,6 +135,7 @@ func (p *preprocessor) worker(workerID string) {
 				}
 
 				preprocess(workerID, seed)
+				verifhook.At("pre.done", seed, workerID)
 
 				select {
 				case <-p.ctx.Done():
